@@ -12,8 +12,9 @@
 ###############################################################################
 import logging
 import operator
+import queue
 from multiprocessing import Process, Queue
-from typing import Any, Callable, Dict, Iterator, List, Optional
+from typing import Any, Callable, Dict, Iterator, List, Optional, Tuple
 
 from numpy.typing import NDArray
 
@@ -50,6 +51,8 @@ from nucs.solvers.backtrack_solver import BacktrackSolver
 from nucs.solvers.solver import Solver
 
 logger = logging.getLogger(__name__)
+
+GET_TIMEOUT = 0.5  # in seconds, the time to wait for a message before checking that the processes are alive
 
 
 class MultiprocessingSolver(Solver):
@@ -88,13 +91,18 @@ class MultiprocessingSolver(Solver):
 
     def solve(self) -> Iterator[NDArray]:
         solutions: Queue = Queue()
+        processes = []
         for proc_idx, solver in enumerate(self.solvers):
-            Process(target=solver.solve_and_queue, args=(proc_idx, solutions)).start()
+            process = Process(target=solver.solve_and_queue, args=(proc_idx, solutions))
+            process.start()
+            processes.append(process)
+        completed = [False] * len(self.solvers)
         nb = len(self.solvers)
         while nb > 0:
-            proc_idx, solution, statistics = solutions.get()
+            proc_idx, solution, statistics = get_from_processes(solutions, processes, completed)
             self.statistics[proc_idx] = statistics
             if solution is None:
+                completed[proc_idx] = True
                 nb -= 1
             else:
                 yield solution
@@ -107,18 +115,46 @@ class MultiprocessingSolver(Solver):
 
     def optimize(self, variable_idx: int, proc_func_name: str, comparison_func: Callable) -> Optional[NDArray]:
         solutions: Queue = Queue()
+        processes = []
         for proc_idx, solver in enumerate(self.solvers):
-            Process(target=(getattr(solver, proc_func_name)), args=(variable_idx, proc_idx, solutions)).start()
+            process = Process(target=(getattr(solver, proc_func_name)), args=(variable_idx, proc_idx, solutions))
+            process.start()
+            processes.append(process)
+        completed = [False] * len(self.solvers)
         best_solution = None
         nb = len(self.solvers)
         while nb > 0:
-            proc_idx, solution, statistics = solutions.get()
+            proc_idx, solution, statistics = get_from_processes(solutions, processes, completed)
             self.statistics[proc_idx] = statistics
             if solution is None:
+                completed[proc_idx] = True
                 nb -= 1
             elif best_solution is None or comparison_func(solution[variable_idx], best_solution[variable_idx]):
                 best_solution = solution
         return best_solution
+
+
+def get_from_processes(solutions: Queue, processes: List[Any], completed: List[bool]) -> Tuple[int, Any, Any]:
+    """
+    Gets the next message from the queue.
+    :param solutions: the queue
+    :param processes: the processes that feed the queue
+    :param completed: for each process, True iff its completion message has been received
+    :return: a message
+    :raise RuntimeError: if a process has terminated without sending its completion message
+    """
+    while True:
+        try:
+            return solutions.get(timeout=GET_TIMEOUT)
+        except queue.Empty:
+            dead = [idx for idx, process in enumerate(processes) if not completed[idx] and not process.is_alive()]
+            if len(dead) > 0:
+                try:  # what a terminated process has sent is already in the queue
+                    return solutions.get(timeout=GET_TIMEOUT)
+                except queue.Empty:
+                    for process in processes:
+                        process.terminate()
+                    raise RuntimeError(f"Processes {dead} terminated before completion")
 
 
 def sum_stats(stats: List[Any], index: int) -> int:
